@@ -89,6 +89,10 @@ class VerifyAttrs(object):
                 )
 
         is_ptr = ast.is_indirect()
+        if attrs["dimension"] is True:
+            raise RuntimeError(
+                "dimension attribute must have a value."
+            )
         if attrs["dimension"] and not is_ptr:
             raise RuntimeError(
                 "dimension attribute can only be "
